@@ -97,13 +97,14 @@ def _eqv(E, x, y):
     return E.eq(x, y)
 
 
-def c13_analysis(E, names=QUICK, sym=(("EX_A",), ("DM_B",), ("R1",))):
+def c13_analysis(E, names=QUICK, sym=(("EX_A",), ("DM_B",)), objectives=("DM_B:max", "DM_B:min", "empty:min"),
+                 pre_ko=("none", "g3")):
     env.for_path(E)
     name = E.pick("analysis", list(names))
     m = networks.build("T8")
     which = E.pick("symbolic_reaction", list(sym))
     networks.symbolic_bounds(E, m, which=list(which), delta=0.01)
-    objective = E.pick("objective", ["DM_B:max", "DM_B:min", "empty:min", "empty:max"])
+    objective = E.pick("objective", list(objectives))
     if objective.startswith("DM_B"):
         m.objective = "DM_B"
     else:
@@ -112,7 +113,7 @@ def c13_analysis(E, names=QUICK, sym=(("EX_A",), ("DM_B",), ("R1",))):
     if name in ("fva-fraction",) and objective.endswith("min"):
         return      # fraction < 1 needs an optimum with the sign of the direction (C05's precondition)
     m.objective_direction = objective.split(":")[1]
-    pre = E.pick("gene_already_knocked_out", ["none", "g3", "g1"])
+    pre = E.pick("gene_already_knocked_out", list(pre_ko))
     if pre != "none":
         m.genes.get_by_id(pre).knock_out()
     inctx = E.flag("inside_user_context")
@@ -142,7 +143,8 @@ def c13_analysis(E, names=QUICK, sym=(("EX_A",), ("DM_B",), ("R1",))):
 
 
 def c13_thorough(E):
-    return c13_analysis(E, names=list(ANALYSES), sym=(("EX_A", "R1"), ("DM_B", "R2"), ("EX_A", "DM_B")))
+    return c13_analysis(E, names=list(ANALYSES), sym=(("EX_A", "R1"), ("DM_B", "R2"), ("EX_A", "DM_B")),
+                        objectives=("DM_B:max", "DM_B:min", "empty:min", "empty:max"), pre_ko=("none", "g3", "g1"))
 
 
 def c13_geometric(E):
@@ -162,8 +164,8 @@ def c13_geometric(E):
 
 HARNESSES = [
     H("c13_analysis", c13_analysis, tiers=("quick",), quick=dict(max_paths=30000, time_budget=110), witness_every=60,
-      bounds="T8 (4 reactions, 4 genes); %d analyses; one symbolic reaction (EX_A / DM_B / R1: infeasible instances occur); objective "
-             "DM_B or empty x max/min; a gene already knocked out or not; inside/outside a user context; each analysis called twice"
+      bounds="T8 (4 reactions, 4 genes); %d analyses; one symbolic reaction (EX_A / DM_B: infeasible instances occur); objective "
+             "DM_B max/min or empty min; a gene already knocked out or not; inside/outside a user context; each analysis called twice"
              % len(QUICK)),
     H("c13_thorough", c13_thorough, tiers=("thorough",), thorough=dict(max_paths=600000, time_budget=900), witness_every=200,
       bounds="%d analyses incl. loopless FVA, fastcc, open-exchange blocked search, essential reactions, summaries; two symbolic "
